@@ -1,6 +1,7 @@
 """Spec -> code for C08 / C09: the per-month recipes emitted by Supply.tla are evaluated on generated inputs and compared with
 the real supply classes. cwd = scratch copy. argv: recipes.ndjson report.json n_inputs seed"""
 import contextlib
+import copy
 import io
 import json
 import os
@@ -130,15 +131,21 @@ def run_real(c, fish_pct):
     Food.conversions.set_nutrition_requirements(2100, 47, 51, False, False, c["POP"])
     res = {}
     with contextlib.redirect_stdout(io.StringIO()):
-        oc = OutdoorCrops(c)
-        oc.calculate_rotation_ratios(c)
-        oc.calculate_monthly_production(c)
+        # crops, greenhouses, single-cell protein, sugar and stored food go through the glue of Parameters (init_*), the way a run
+        # builds them; the greenhouse share itself is read from a separate Greenhouses object
+        from src.optimizer.parameters import Parameters
+        par = Parameters()
+        c = copy.deepcopy(c)
+        co, oc = par.init_outdoor_crops({}, c)
+        oc2 = OutdoorCrops(c)
+        oc2.calculate_rotation_ratios(c)
+        oc2.calculate_monthly_production(c)
         gh = Greenhouses(c)
-        area = gh.get_greenhouse_area(c, oc)
-        k_ha, _, _ = gh.get_greenhouse_yield_per_ha(c, oc)
-        res["greenhouse"] = np.multiply(k_ha, area)
+        gh.get_greenhouse_area(c, oc2)
         res["gh_frac"] = np.array(gh.greenhouse_fraction_area, dtype=float)
-        oc.set_crop_production_minus_greenhouse_area(c, gh.greenhouse_fraction_area)
+        tc = par.init_greenhouse_params({}, c, oc)
+        res["greenhouse"] = np.array(tc["greenhouse_crops"].kcals, dtype=float)
+        oc = tc["outdoor_crops"]
         res["crops"] = np.array(oc.production.kcals, dtype=float)
         res["crops_dtype"] = str(np.asarray(oc.production.kcals).dtype)
         res["crops_grown_reloc"] = np.array(oc.KCALS_GROWN, dtype=float)
@@ -152,19 +159,16 @@ def run_real(c, fish_pct):
         bio, feed = fb.get_biofuels_and_feed_from_delayed_shutoff(c)
         res["feed"] = np.array(feed.kcals, dtype=float)
         res["biofuel"] = np.array(bio.kcals, dtype=float)
-        scp = MethaneSCP(c)
-        scp.calculate_monthly_scp_caloric_production(c)
-        scp.calculate_scp_fat_and_protein_production()
-        res["scp"] = np.array(scp.production.kcals, dtype=float)
-        cs = CellulosicSugar(c)
-        cs.calculate_monthly_cs_production(c)
-        res["cs"] = np.array(cs.production.kcals, dtype=float)
+        co, tc, scp = par.init_scp_params(co, tc, c)
+        res["scp"] = np.array(tc["methane_scp"].kcals, dtype=float)
+        co, tc, cs = par.init_cs_params(co, tc, c)
+        res["cs"] = np.array(tc["cellulosic_sugar"].kcals, dtype=float)
         sw = Seaweed(c)
         res["sw_area"] = np.array(sw.get_built_area(c), dtype=float)
         res["sw_growth"] = np.array(sw.get_growth_rates(c), dtype=float)
-        st = StoredFood(c, oc)
-        st.calculate_stored_food_to_use(5)
-        res["stored_food"] = float(st.initial_available.kcals)
+        co["ADD_STORED_FOOD"] = True
+        co, st = par.init_stored_food(co, c, oc)
+        res["stored_food"] = float(np.asarray(st.initial_available.kcals).reshape(-1)[0])
     return res
 
 
